@@ -157,7 +157,7 @@ STRING_TO_COST_FUNCTION = {
     ),
     "negloglikelihood": (XYCostFunction_NegLogLikelihood, {"ratio": False}),
     "neg_log_likelihood": (XYCostFunction_NegLogLikelihood, {"ratio": False}),
-    "nllr": (CostFunction_NegLogLikelihood, {"ratio": True}),
+    "nllr": (XYCostFunction_NegLogLikelihood, {"ratio": True}),
     "nllr-poisson": (
         XYCostFunction_NegLogLikelihood,
         {"data_point_distribution": "poisson", "ratio": True},
